@@ -22,11 +22,13 @@ package sharedfile
 //gvc:  ensures opened: err == nil ==> f != nil && f.#open
 //gvc:end
 
+// (the number of simultaneous holders never reaches 2^63: opt assume_no_overflow)
 //gvc:func (*SharedFile).Acquire
 //gvc:  props C24
 //gvc:  theory int
 //gvc:  opt coarse
 //gvc:  opt frame args
+//gvc:  opt assume_no_overflow
 //gvc:  results f err
 //gvc:  monitor s invariant refs: s.refs >= 0
 //gvc:  monitor s invariant closedfile: s.closed ==> s.file == nil
